@@ -190,10 +190,8 @@ def classify(case: dict, res: dict) -> list[tuple[str | None, str, dict]]:
         elif kind == "import" and feats["mutual_refs"] and ("partially initialized module" in msg or "circular import" in msg
                                                                or "No module named" in msg or "cannot import name" in msg):
             fid = "F2"
-        elif kind == "import" and feats["shadowing_props"] and ("is not callable" in msg or "object is not subscriptable" in msg or "has no attribute" in msg or "NameError" in msg or "TypeError" in msg):
-            fid = "F5"
-        # F4 (a parameter declared at path level and again at operation level -> duplicate argument) is repaired: `dup_params` stays in the
-        # features for the record, a recurrence is a violation
+        # F4 (a parameter declared at path level and again at operation level -> duplicate argument) and F5 (a property `field` shadowing
+        # dataclasses.field) are repaired: `dup_params` / `shadowing_props` stay in the features for the record, a recurrence is a violation
         out.append((fid, f"{kind} {where}: {msg}", {"kind": kind, "where": where, "msg": msg, "features": feats}))
     return out
 
@@ -252,7 +250,7 @@ def make_cases(ctx, r) -> list[dict]:
     return cases
 
 
-FORMER = ("F4",)       # repaired findings whose witnesses stay in the case list
+FORMER = ("F4", "F5")       # repaired findings whose witnesses stay in the case list
 
 
 def inject_param_override(doc: dict, rr) -> bool:
